@@ -12,14 +12,16 @@ Two layers, both over ALL states / inputs / histories of the models:
   again), the broadcast bit (`broadcast_*`), the application-controlled bits (`app_bits_mirror`);
 * database component (`Dnp3.Props.DbComponent`): the class bits equal "an unwritten event of that
   class is buffered" and `unwritten_classes` never underflows (`class_bits_exact`,
-  `no_counter_underflow`, for every operation sequence and per operation; D3 repaired — at session
-  level D4 remains), the overflow bit interval (`overflow_flag_*`).
+  `no_counter_underflow`, for every operation sequence and per operation; D3 repaired), the overflow
+  bit interval (`overflow_flag_*`).
 
 The statements are restated verbatim from the proof files; definitions used in them
 (`StepWriteClears`, `StepFrag`, `BcastOf`, `IsSolConfirm`, `BcEvid`, `clearOut`, …) are in
 `Dnp3.Proofs.OutstationSkel` / `OutstationC13`.
 Known defects: D16 (an unsolicited confirm clears a broadcast indication that was never reported:
-`confirm_clears_broadcast` is the exact characterisation), D4 (class bits at session level).
+`confirm_clears_broadcast` is the exact characterisation).
+D4 (events of an unconfirmed unsolicited response stayed `Written`, under-reporting the class bits) is
+repaired: outside a response series no record is `Written` (`Dnp3.Props.C03`, section Session).
 -/
 namespace Dnp3.Props.C13
 open Dnp3 Dnp3.Proofs.Frame Dnp3.Proofs.Iin Dnp3.Proofs.Skel Dnp3.Proofs.C13
